@@ -12,7 +12,7 @@ from concurrent.futures import ThreadPoolExecutor
 
 from vlib.comp import (Component, corrupt_self_test, record_traces, replay_edges, replay_file, trace_stats,
                        validate_traces)
-from vlib.memports import MEMTYPES, Collector, accepts, addr_bits, mem_ctor, model_check_variant
+from vlib.memports import MEMTYPES, Collector, accepts, addr_bits, mem_ctor, model_check_variant, tlc_workers
 
 
 def full_cfg(cfg, mt=None):
@@ -53,9 +53,22 @@ class Tracker:
     def __init__(self, cfg):
         self.cfg = cfg
         self.hot = []
+        self.pend = [[] for _ in range(cfg["read_ports"])]   # rows of the pending responses (from observed lines)
 
     def update(self, line):
-        pass
+        for i, q in enumerate(self.pend):
+            if line[f"read_resp{i}"]["done"] and q:
+                q.pop(0)
+            if line[f"read_req{i}"]["done"]:
+                q.append(line[f"read_req{i}"]["arg"])
+
+    def waddr(self, rng):
+        """row for a write: often one with a pending response (forwarding into the output /
+        overflow stage), else like any other address"""
+        rows = [a for q in self.pend for a in q]
+        if rows and rng.random() < 0.5:
+            return rng.choice(rows)
+        return self.addr(rng)
 
     def addr(self, rng):
         d = self.cfg["depth"]
@@ -86,7 +99,7 @@ def gen_arg(cfg, m, rng, tr):
     nm = 1 << (cfg["width"] // g) if g else 2
     r = rng.random()
     mask = 1 if not g else (nm - 1 if r < 0.35 else rng.randrange(0 if r > 0.95 else 1, nm))
-    return {"addr": tr.addr(rng), "data": rng.randrange(1, 1 << cfg["width"]), "mask": mask}
+    return {"addr": tr.waddr(rng), "data": rng.randrange(1, 1 << cfg["width"]), "mask": mask}
 
 
 def want(cfg, m, rng, tracker, p):
@@ -190,7 +203,7 @@ def run(rep):
 
     # 1. model check (all Configs) and edge dump (ConfigsEdge / ConfigsEdgeBig) side by side
     with ThreadPoolExecutor(2) as ex:
-        f1 = ex.submit(model_check_variant, COMP, rep, "Configs", False, 6)
+        f1 = ex.submit(model_check_variant, COMP, rep, "Configs", False, tlc_workers(6))
         f2 = ex.submit(model_check_variant, COMP, col, "ConfigsEdgeBig" if thorough else "ConfigsEdge", True, 1)
         res1, _, _ = f1.result()
         res2, edges, inits = f2.result()
